@@ -113,9 +113,16 @@ impl<'a> Driver<'a> {
         let f = self.f;
         let s = run_strategy(strat, seed, phase, n, |v, st| {
             let b = to_bytes(v);
+            // one buffer, refilled in place: the neighbour and the case have the same length and
+            // live at the same address (a memo keyed on pointer + length would confuse them)
+            let mut buf: Vec<u8> = Vec::with_capacity(b.len());
             for nb in gen::neighbour_bytes(&b) {
-                f(&nb, st, Count::No);
-                f(&b, st, Count::No);
+                buf.clear();
+                buf.extend_from_slice(&nb);
+                f(&buf, st, Count::No);
+                buf.clear();
+                buf.extend_from_slice(&b);
+                f(&buf, st, Count::No);
             }
             st.class("evaluated-after-a-neighbour");
         });
